@@ -318,6 +318,20 @@ Definition name_at (w : world) (f : N) : list N :=
 Definition NamesUnique (w : world) : Prop :=
   forall m x, model_b w m = Some x -> NoDup (map (name_at w) (m_files x)).
 
+(* ArxmlFile::set_filename (arxmlfile.rs): the name must differ from the names of the OTHER files of the file's model;
+   checked BEFORE the name is stored.  Not part of the alphabets op / op2 (it changes no membership): a function of its
+   own with its own theorems (Tree/FilesProofsNames.v) *)
+Definition name_taken (w : world) (x : model) (f : N) (name : list N) : bool :=
+  existsb (fun g => negb (g =? f) &&
+                    match nth_opt (w_files w) (N.to_nat g) with Some gl => bytes_eqb (f_name gl) name | None => false end)
+          (m_files x).
+Definition f_set_filename (f : N) (name : list N) : W unit :=
+  (do fl <- get_file f;
+   do x <- get_model (f_model fl);
+   do w <- wget;
+   if name_taken w x f name then wfail DuplicateFilenameError
+   else set_file f (mkFile (f_model fl) name (f_version fl) (f_standalone fl)))%W.
+
 (* the root element of model m has a type that is a named type (never the case for the real tables: AUTOSAR has no
    SHORT-NAME); remove_file of the last file could then fail to delete a SHORT-NAME child of the root *)
 Definition root_named (w : world) (o : op) : bool :=
